@@ -30,14 +30,26 @@ lane() {
     prop=$(python3 -c "import json; print(json.load(open('$d/meta.json'))['property'])")
     git -C $D/repo checkout -q -- . ; git -C $D/repo apply $d/patch.diff || { echo "$n :: patch does not apply"; continue; }
     out=$(./check "$prop" --tier "$TIER" 2>$D/err_$n.log); rc=$?
+    # a change that only exists in some feature configurations (names ending in _O) is also shown to
+    # C20's configuration sweep, whose clause "enabling a feature does not change the others" it breaks
+    rc20=""; nv20=0; first20=""
+    case $n in *_O) if [ "$prop" != "C20" ]; then
+      out20=$(./check C20 --tier "$TIER" 2>>$D/err_$n.log); rc20=$?
+      nv20=$(echo "$out20" | grep -c "^VIOLATION")
+      first20=$(echo "$out20" | grep -A1 "^VIOLATION" | grep -v "^VIOLATION" | head -1 | cut -c1-400)
+    fi;; esac
     git -C $D/repo checkout -q -- .
     nv=$(echo "$out" | grep -c "^VIOLATION")
     first=$(echo "$out" | grep -A1 "^VIOLATION" | grep -v "^VIOLATION" | head -1 | cut -c1-400)
-    echo "$n :: $prop rc=$rc violations=$nv :: $(echo "$first" | cut -c1-200)"
-    python3 - "$d" "$prop" "$TIER" "$rc" "$nv" "$first" <<'PY'
+    echo "$n :: $prop rc=$rc violations=$nv :: $(echo "$first" | cut -c1-200)${rc20:+ :: C20 rc=$rc20 violations=$nv20 :: $(echo "$first20" | cut -c1-160)}"
+    python3 - "$d" "$prop" "$TIER" "$rc" "$nv" "$first" "$rc20" "$nv20" "$first20" <<'PY'
 import json,sys
-d,prop,tier,rc,nv,first=sys.argv[1:7]
-json.dump({"check":f"./check {prop} --tier {tier}","exit_code":int(rc or -1),"violation_lines":int(nv),"caught":rc=="1","first_witness":first.strip()},open(d+"/result.json","w"),indent=1)
+d,prop,tier,rc,nv,first,rc20,nv20,first20=sys.argv[1:10]
+r={"check":f"./check {prop} --tier {tier}","exit_code":int(rc or -1),"violation_lines":int(nv),"caught":rc=="1","first_witness":first.strip()}
+if rc20:
+    r["configuration_sweep"]={"check":f"./check C20 --tier {tier}","exit_code":int(rc20),"violation_lines":int(nv20),"caught":rc20=="1","first_witness":first20.strip()}
+    r["caught"]=r["caught"] or rc20=="1"
+json.dump(r,open(d+"/result.json","w"),indent=1)
 PY
   done
   cd /; git -C /repo worktree remove --force $D/repo; rm -rf $D
